@@ -298,6 +298,10 @@ class _Sym:
     def untag(self, x, tag):
         return unwrap(Val(x.ty.alt_ty(tag), x.ty.get(tag, x.t)))
 
+    def none_of(self, opt_ty):
+        """The None value of an Optional sort."""
+        return unwrap(Val(opt_ty, opt_ty.none()))
+
     def inject(self, union_ty, tag, x):
         """The value x as the alternative `tag` of a union sort."""
         x = wrap(x)
